@@ -15,8 +15,11 @@ from collections import Counter
 from pathlib import Path
 
 VERIF = Path(__file__).resolve().parent.parent
-LEAN = VERIF / "lean"
-REPO = Path(os.environ.get("VERIF_REPO", "/repo"))
+LEAN = Path(os.environ.get("VERIF_LEAN") or (VERIF / "lean"))   # override only for development in a scratch copy
+REPO = Path(os.environ.get("VERIF_REPO", "/repo"))              # override only to try the checks on a scratch worktree
+if os.environ.get("VERIF_REPO"):
+    # make every subprocess import _pytask from the scratch worktree instead of the editable install
+    os.environ["PYTHONPATH"] = f"{REPO}/src" + (":" + os.environ["PYTHONPATH"] if os.environ.get("PYTHONPATH") else "")
 PY = "/venv/bin/python"
 ACCEPTED_AXIOMS = {"propext", "Classical.choice", "Quot.sound"}
 FORBIDDEN = re.compile(r"\b(sorry|admit|native_decide|bv_decide|implemented_by|unsafe)\b|^\s*axiom\s|maxHeartbeats\s+0\b", re.M)
